@@ -43,15 +43,7 @@ Proof.
   split; [exact (has_semantics d)|]. intros c p H. unfold child_of. rewrite H. reflexivity.
 Qed.
 
-(* legacy Query.union(..).offset(1).exists(): the union has one row, the query returns none, exists() says true *)
+(* legacy Query.union(..).offset(1).exists() (formerly a cartesian product union x p; repaired in 2942091):
+   the union has one row, the query returns none, count() is 0 and exists() is false *)
 Definition wit_db3 : db := {| ps := [ {| p_id := 1; p_x := Some 1%Z |}; {| p_id := 2; p_x := Some 5%Z |} ]; cs := []; ns := [] |}.
 Definition wit_q3 : oq := QUnion (PS (SCmp OEq 1)) (PS (SCmp OEq 1)).
-Lemma exists_legacy_union_refuted : exists d q off lim,
-  orm_exec_sl d q off lim true = [] /\ orm_count_sl d q off lim = 0 /\ orm_exists_legacy d q off lim = true.
-Proof. exists wit_db3, wit_q3, 1, None. repeat split; vm_compute; reflexivity. Qed.
-
-Lemma exists_legacy_guarded : forall d q off lim, is_union q = false ->
-  orm_exists_legacy d q off lim = negb (Nat.eqb (length (orm_exec_sl d q off lim false)) 0).
-Proof.
-  intros d q off lim H. unfold orm_exists_legacy. rewrite H. apply count_exists_agree_sl.
-Qed.
